@@ -3,6 +3,7 @@
 package wallet
 
 import (
+	"github.com/btcsuite/btcd/btcutil/psbt"
 	"time"
 
 	"github.com/btcsuite/btcd/btcutil"
@@ -252,7 +253,7 @@ func zzC06CreateMode(mode int) {
 		verifrt.Reach("insufficient")
 		return
 	}
-	check := func(atx *txauthor.AuthoredTx, label string) {
+	check := func(atx *txauthor.AuthoredTx, label string, minconf int32) {
 		seen := map[wire.OutPoint]bool{}
 		for _, in := range atx.Tx.TxIn {
 			verifrt.Assert(!seen[in.PreviousOutPoint], label+"-no-input-used-twice")
@@ -270,7 +271,7 @@ func zzC06CreateMode(mode int) {
 			}
 		}
 	}
-	check(atx, "c06-first")
+	check(atx, "c06-first", minconf)
 	if len(atx.Tx.TxIn) > 1 {
 		verifrt.Reach("several-inputs")
 	}
@@ -285,9 +286,31 @@ func zzC06CreateMode(mode int) {
 		}
 	}
 	out2 := wire.NewTxOut(10000, out.PkScript)
-	atx2, err := w.w.txToOutputs([]*wire.TxOut{out2}, &s84, nil, 0, 0, 2000, strategy, false, nil, nil)
-	if err == nil {
-		for _, in2 := range atx2.Tx.TxIn {
+	var ins2 []*wire.TxIn
+	if verifrt.Choice(2, "second-send-via") == 0 {
+		atx2, err := w.w.txToOutputs([]*wire.TxOut{out2}, &s84, nil, 0, 0, 2000, strategy, false, nil, nil)
+		if err == nil {
+			ins2 = atx2.Tx.TxIn
+			check(atx2, "c06-second", 0)
+		}
+	} else {
+		// PSBT funding without inputs: coin selection by the wallet through
+		// CreateSimpleTx and the serialising txCreator goroutine
+		w.w.wg.Add(1)
+		go w.w.txCreator()
+		tx2 := wire.NewMsgTx(2)
+		tx2.AddTxOut(out2)
+		packet := &psbt.Packet{UnsignedTx: tx2, Outputs: make([]psbt.POutput, 1)}
+		_, err := w.w.FundPsbt(packet, &s84, 0, 0, 2000, strategy)
+		close(w.w.quit)
+		if err == nil {
+			ins2 = packet.UnsignedTx.TxIn
+			check(&txauthor.AuthoredTx{Tx: packet.UnsignedTx}, "c06-psbt", 0)
+			verifrt.Reach("second-send-funded-psbt")
+		}
+	}
+	if ins2 != nil {
+		for _, in2 := range ins2 {
 			for _, in1 := range atx.Tx.TxIn {
 				verifrt.Assert(in2.PreviousOutPoint != in1.PreviousOutPoint, "c06-published-inputs-not-reused")
 			}
